@@ -149,7 +149,79 @@ def cell(state: int, requestor: bool, timer_running: bool, stale: bool, b1: int,
     return ok
 
 
+@cond(bounds='Evt10 (P-DATA-TF received) in every state x what the PDU carries: one PDV whose message control header is a '
+             'symbolic byte 0..255 followed by 0..2 symbolic bytes. Control 1 = a command fragment of a message that is '
+             'not complete yet (no indication, same state); 0 / 2 = data fragment before any command (either reaction accepted); anything else - incl. a "last command fragment" that cannot '
+             'be a command set - is an invalid PDU: the effect of Evt19 in that state (AA-8 in Sta6 / Sta7). Role and '
+             'ARTIM state symbolic', timeout=180)
+def pdata_content_cell(state: int, requestor: bool, timer_running: bool, ctrl: int, data: bytes) -> bool:
+    """
+    pre: 0 <= state <= 12 and 0 <= ctrl <= 255 and len(data) <= 2
+    post: _
+    """
+    sock = sim.SimSocket()
+    prov = sim.make_provider(None if requestor else sock)
+    sm = prov.state_machine
+    timer = sim.RecTimer(timer_running)
+    prov.timer = sm.timer = timer
+    fsm.socket = sim.SocketModule()
+    prov.dul_socket = sock
+    prim = pdu.PDataTfPDU([pdu.PresentationDataValueItem(5, bytes([ctrl]) + data)])
+    prov.primitive = prim
+    prov.event.clear()
+    sm.current_state = state
+    fragment_only = ctrl == 1
+    dont_care = ctrl in (0, 2)            # data fragment before any command fragment: the peer violates PS3.7 6.3.1;
+                                          # ignoring it and aborting are both acceptable
+    in_data_transfer = state + 1 in (6, 7)
+    if in_data_transfer and not fragment_only:
+        exp = ref.effect(19, state + 1, requestor)
+    else:
+        exp = ref.effect(10, state + 1, requestor)
+    raised = False
+    try:
+        sm.action(10 - 1)
+    except Exception:
+        raised = True
+    sent, ind = sock.sent, prov.to_service_user.log
+    if exp is None:
+        ok = (sent == [] and ind == [] and not sock.closed and timer.ops == [] and sm.current_state == state)
+        deep(ok and raised)
+        return ok
+    if raised:
+        return False
+    if in_data_transfer and dont_care:
+        return True
+    act, e_send, e_ind, e_close, e_timer, e_next = exp
+    ok = sm.current_state == e_next - 1
+    if in_data_transfer and fragment_only:
+        ok = ok and sent == [] and ind == [] and timer.ops == [] and not sock.closed
+        deep(ok and len(data) == 2)
+        return ok
+    if e_send is None:
+        ok = ok and sent == []
+    else:
+        ok = ok and len(sent) == 1 and is_pdu_bytes(sent[0], 7)
+    if e_ind is None:
+        ok = ok and ind == []
+    else:
+        ok = ok and len(ind) == 1 and getattr(ind[0], 'pdu_type', None) == 7
+    ok = ok and (sock.closed and prov.dul_socket is None if e_close else not sock.closed and prov.dul_socket is sock)
+    if e_timer is None:
+        ok = ok and timer.ops == [] and timer.running == timer_running
+    elif e_timer == 'stop':
+        ok = ok and not timer.running
+    else:
+        ok = ok and timer.running
+    deep(ok and in_data_transfer and ctrl == 3)
+    return ok
+
+
 def explain(cname, args, famv):
+    if cname == 'pdata_content_cell':
+        return 'P-DATA-TF with control byte %d + %r in Sta%d: fragment of an incomplete message -> nothing happens; ' \
+               'otherwise invalid PDU -> Evt19 effect %r' % (args['ctrl'], args['data'], args['state'] + 1,
+                                                            ref.effect(19, args['state'] + 1, args['requestor']))
     evt, state = famv['evt'], args['state'] + 1
     return 'Evt%d in Sta%d as %s: PS3.8 prescribes %r (action, send, indicate, close, timer, next)' % (
         evt, state, 'requestor' if args['requestor'] else 'acceptor', ref.effect(evt, state, args['requestor']))
